@@ -543,6 +543,12 @@ def gen_stray(rng, node):
         if tuple(bad) in used:
             continue
         ents.append([bad, 0.5, False])
+    # prefix-free: a valid leaf address may not be a proper prefix of another entry
+    ents = [
+        e
+        for e in ents
+        if not any(tuple(o[0]) != tuple(e[0]) and tuple(o[0])[: len(e[0])] == tuple(e[0]) for o in ents)
+    ]
     return ents
 
 
